@@ -83,7 +83,8 @@ theorem stepL_opts {p p' : PS} (a : Act) (h : Inv p) (hs : stepL p a = some p') 
     split at hs
     · cases hs
     · split at hs
-      · rename_i f rest hba
+      · cases hs
+      · rename_i f rest _ hba
         split at hs
         · rename_i e evs hpf
           cases hs
@@ -136,16 +137,56 @@ theorem run_opts (p : PS) (as : List (Side × Act)) (h : Inv p) :
       have h2 := step_opts s a h hs
       exact ⟨by simp only [Option.getD_some]; rw [h1.1, h2.1], by simp only [Option.getD_some]; rw [h1.2, h2.2]⟩
 
-/-- Flow `x` is established on both endpoints (objects `i` at `a`, `j` at `b`) and neither side has
-    dropped its handle. -/
+/-- The application still observes the receiving half of stream object `j`: the handle has not been
+    dropped (or end-of-stream has been read, after which nothing changes any more). -/
+def observed (e : EP) (g : Ghost) (j : Nat) : Bool :=
+  match e.objs[j]? with
+  | some o => o.rxOpen || g.eof j
+  | none => false
+
+theorem observed_spec {e : EP} {g : Ghost} {j : Nat} {o : Obj} (h : observed e g j = true) (ho : e.objs[j]? = some o) :
+    ReaderOk o (g.eof j) := by
+  simp only [observed, ho, Bool.or_eq_true] at h
+  exact h
+
+/-- Flow `x` has been established on both endpoints (its handshake completed: `x ∈ p.linked`), both
+    still hold it (objects `i` at `a`, `j` at `b`), and both applications still observe their streams. -/
 structure Established (p : PS) (x i j : Nat) : Prop where
   sa : lookup p.a.flows x = some (.established i)
   sb : lookup p.b.flows x = some (.established j)
-  da : ¬ x ∈ p.a.droppedq
-  db : ¬ x ∈ p.b.droppedq
+  lk : x ∈ p.linked
+  oa : observed p.a p.ga i = true
+  ob : observed p.b p.gb j = true
 
 theorem Established.swap {p : PS} {x i j : Nat} (e : Established p x i j) : Established p.swap x j i :=
-  ⟨e.sb, e.sa, e.db, e.da⟩
+  ⟨e.sb, e.sa, e.lk, e.ob, e.oa⟩
+
+/-- What the invariant says about a flow whose handshake has completed: one object per endpoint, and
+    the per-direction claims. -/
+theorem linked_objs {p : PS} (h : Inv p) {x : Nat} (hx : x ∈ p.linked) :
+    ∃ i j oA oB, p.a.objs[i]? = some oA ∧ p.b.objs[j]? = some oB ∧ oA.fid = x ∧ oB.fid = x ∧
+      oA.cap = p.a.opts.rwnd ∧ oB.cap = p.b.opts.rwnd ∧
+      (∀ k o, p.a.objs[k]? = some o → o.fid = x → k = i) ∧ (∀ k o, p.b.objs[k]? = some o → o.fid = x → k = j) ∧
+      SlotOk (lookup p.a.flows x) i oA ∧ SlotOk (lookup p.b.flows x) j oB ∧
+      Claim (lookup p.a.flows x) oA oB (fl x (pathAB p)) (fl x (pathBA p)) (p.ga.wlog i) (p.gb.rlog j) (p.gb.eof j) ∧
+      Claim (lookup p.b.flows x) oB oA (fl x (pathBA p)) (fl x (pathAB p)) (p.gb.wlog j) (p.ga.rlog i) (p.ga.eof i) := by
+  have r := h.live x hx
+  obtain ⟨i, j, oA, oB, h3, h4, h5, h6, c1, c2, s1, s2, _, _, _, _, _, _, k1, k2⟩ := r.body
+  obtain ⟨hoA, hfA⟩ := objView_some h3
+  obtain ⟨hoB, hfB⟩ := objView_some h4
+  rw [(ev_wlog_some h3).1, (ev_wlog_some h4).2.1, (ev_wlog_some h4).2.2] at k1
+  rw [(ev_wlog_some h4).1, (ev_wlog_some h3).2.1, (ev_wlog_some h3).2.2] at k2
+  refine ⟨i, j, oA, oB, hoA, hoB, hfA, hfB, c1, c2, ?_, ?_, s1, s2, k1, k2⟩
+  · intro k o hk hf
+    rcases Nat.decEq k i with hne | he
+    · have := h5 k hne
+      rw [show (ev x p.a p.ga).objs k = objView x p.a k from rfl, objView_self hk hf] at this; cases this
+    · exact he
+  · intro k o hk hf
+    rcases Nat.decEq k j with hne | he
+    · have := h6 k hne
+      rw [show (ev x p.b p.gb).objs k = objView x p.b k from rfl, objView_self hk hf] at this; cases this
+    · exact he
 
 /-- The direction `a → b` of an established flow is a reachable state of the link model. -/
 theorem established_dir {p : PS} (h : Inv p) {x i j : Nat} (e : Established p x i j) :
@@ -153,35 +194,19 @@ theorem established_dir {p : PS} (h : Inv p) {x i j : Nat} (e : Established p x 
       oA.cap = p.a.opts.rwnd ∧ oB.cap = p.b.opts.rwnd ∧
       DirRel oA oB (fl x (pathAB p)) (fl x (pathBA p)) (p.ga.wlog i) (p.gb.rlog j) (p.gb.eof j) l ∧
       (∀ k o, p.a.objs[k]? = some o → o.fid = x → k = i) ∧ (∀ k o, p.b.objs[k]? = some o → o.fid = x → k = j) := by
-  have hsa : (ev x p.a p.ga).slot = some (.established i) := e.sa
-  have hsb : (ev x p.b p.gb).slot = some (.established j) := e.sb
-  rcases h.phase x with r | r | r | r | r | r | r
-  · rw [r.sa] at hsa; cases hsa
-  · rw [r.sb] at hsb; cases hsb
-  · rw [r.sb] at hsa; cases hsa
-  · obtain ⟨req, hr⟩ := r.sa; rw [hr] at hsa; cases hsa
-  · obtain ⟨req, hr⟩ := r.sa; rw [hr] at hsb; cases hsb
-  · obtain ⟨i', j', oA, oB, h1, h2, h3, h4, h5, h6, c1, c2, h7⟩ := r.body
-    rw [h1] at hsa; cases hsa
-    rw [h2] at hsb; cases hsb
-    obtain ⟨⟨l, d⟩, _⟩ := h7 e.da e.db
-    obtain ⟨hoA, hfA⟩ := objView_some h3
-    obtain ⟨hoB, hfB⟩ := objView_some h4
-    rw [(ev_wlog_some h3).1, (ev_wlog_some h4).2.1, (ev_wlog_some h4).2.2] at d
-    refine ⟨oA, oB, l, hoA, hoB, hfA, hfB, c1, c2, d, ?_, ?_⟩
-    · intro k o hk hf
-      rcases Nat.decEq k i with hne | he
-      · have := h5 k hne
-        rw [show (ev x p.a p.ga).objs k = objView x p.a k from rfl, objView_self hk hf] at this; cases this
-      · exact he
-    · intro k o hk hf
-      rcases Nat.decEq k j with hne | he
-      · have := h6 k hne
-        rw [show (ev x p.b p.gb).objs k = objView x p.b k from rfl, objView_self hk hf] at this; cases this
-      · exact he
-  · rcases r.gone with g | g
-    · rw [g] at hsa; cases hsa
-    · rw [g] at hsb; cases hsb
+  obtain ⟨i', j', oA, oB, hoA, hoB, hfA, hfB, c1, c2, u1, u2, s1, s2, k1, _⟩ := linked_objs h e.lk
+  have hi : i' = i := by
+    rcases s1 with s1 | ⟨s1, _⟩
+    · rw [e.sa] at s1; cases s1; rfl
+    · rw [e.sa] at s1; cases s1
+  have hj : j' = j := by
+    rcases s2 with s2 | ⟨s2, _⟩
+    · rw [e.sb] at s2; cases s2; rfl
+    · rw [e.sb] at s2; cases s2
+  subst hi; subst hj
+  obtain ⟨ka, _⟩ := k1 (observed_spec e.ob hoB)
+  obtain ⟨l, d⟩ := ka (by rw [e.sa]; intro hh; cases hh)
+  exact ⟨oA, oB, l, hoA, hoB, hfA, hfB, c1, c2, d, u1, u2⟩
 
 /-- `Push` payloads of flow `x` in a FIFO, in order. -/
 def pushesOf (x : Nat) (l : List Msg) : List Bytes := Link.pushes ((fl x l).filterMap toItem)
@@ -263,5 +288,74 @@ theorem established_blocked_has_work {p : PS} (h : Inv p) {x i j : Nat} (e : Est
   · exact Or.inl h1
   · exact Or.inr (Or.inl ⟨oB, hoB, h1⟩)
   · exact Or.inr (Or.inr h1)
+
+/-! ### After an endpoint has released the flow (abort, or close after shutdown) -/
+
+/-- `a` has released a flow whose handshake had completed (its handle was dropped and the
+    notification handled, or the peer's `Reset` arrived): `a`'s object is closed for writing, and as
+    long as `b`'s application observes its stream, `b`'s receiving side is a reachable state of the
+    link model whose sender has finished. -/
+theorem released_dir {p : PS} (h : Inv p) {x : Nat} (hx : x ∈ p.linked) (hrel : lookup p.a.flows x = none) :
+    ∃ i j oA oB, p.a.objs[i]? = some oA ∧ p.b.objs[j]? = some oB ∧ oA.fid = x ∧ oB.fid = x ∧
+      (∀ k o, p.a.objs[k]? = some o → o.fid = x → k = i) ∧ (∀ k o, p.b.objs[k]? = some o → o.fid = x → k = j) ∧
+      oA.finishSent = true ∧ oA.senderAlive = false ∧
+      (observed p.b p.gb j = true →
+        ∃ l, DirRelA oB (fl x (pathAB p)) (p.ga.wlog i) (p.gb.rlog j) (p.gb.eof j) l) := by
+  obtain ⟨i, j, oA, oB, hoA, hoB, hfA, hfB, _, _, u1, u2, s1, _, k1, _⟩ := linked_objs h hx
+  have hcl : oA.finishSent = true ∧ oA.senderAlive = false := by
+    rcases s1 with s1 | ⟨_, f1, f2⟩
+    · rw [hrel] at s1; cases s1
+    · exact ⟨f1, f2⟩
+  refine ⟨i, j, oA, oB, hoA, hoB, hfA, hfB, u1, u2, hcl.1, hcl.2, fun hob => ?_⟩
+  exact (k1 (observed_spec hob hoB)).2 hrel
+
+/-- Abort is clean for the peer's reader: after `a` released the flow, what `b`'s application has
+    read is a prefix of what `a`'s application wrote, and everything `a` wrote before releasing is
+    accounted for — read, buffered, queued, or still in flight before the end marker. -/
+theorem released_bytes {p : PS} (h : Inv p) {x : Nat} (hx : x ∈ p.linked) (hrel : lookup p.a.flows x = none) :
+    ∃ i j oB, p.b.objs[j]? = some oB ∧ oB.fid = x ∧ (∀ k o, p.a.objs[k]? = some o → o.fid = x → k = i) ∧
+      (observed p.b p.gb j = true →
+        p.gb.rlog j <+: p.ga.wlog i ∧
+        p.gb.rlog j ++ oB.buf ++ oB.rxq.flatten ++
+          (Link.pushes (if oB.senderAlive then cutEnd ((fl x (pathAB p)).filterMap toItem) else [])).flatten = p.ga.wlog i) := by
+  obtain ⟨i, j, oA, oB, _, hoB, _, hfB, u1, _, _, _, k⟩ := released_dir h hx hrel
+  refine ⟨i, j, oB, hoB, hfB, u1, fun hob => ?_⟩
+  obtain ⟨l, d⟩ := k hob
+  have hd := d.inv.hdata
+  rw [d.hdel, d.hbuf, d.hrxq, d.hwire, d.hacc] at hd
+  refine ⟨?_, hd⟩
+  rw [← hd, List.append_assoc, List.append_assoc]
+  exact List.prefix_append _ _
+
+/-- … and when `b`'s application reads end-of-stream after `a` released the flow, it has read exactly
+    what `a`'s application wrote: nothing is lost, nothing is invented. -/
+theorem released_eof {p : PS} (h : Inv p) {x : Nat} (hx : x ∈ p.linked) (hrel : lookup p.a.flows x = none) :
+    ∃ i j, (∀ k o, p.a.objs[k]? = some o → o.fid = x → k = i) ∧ (∀ k o, p.b.objs[k]? = some o → o.fid = x → k = j) ∧
+      (p.gb.eof j = true → p.gb.rlog j = p.ga.wlog i) := by
+  obtain ⟨i, j, oA, oB, _, hoB, _, _, u1, u2, _, _, k⟩ := released_dir h hx hrel
+  refine ⟨i, j, u1, u2, fun he => ?_⟩
+  have hob : observed p.b p.gb j = true := by simp [observed, hoB, he]
+  obtain ⟨l, d⟩ := k hob
+  have hl : l.eofSeen = true := by rw [d.heof]; exact he
+  obtain ⟨h1, h2, h3⟩ := d.inv.heof hl
+  have hw := d.inv.hdeadwire h1
+  have hd := d.inv.hdata
+  rw [h2, h3, hw] at hd
+  rw [← d.hdel, ← d.hacc]
+  simpa [Link.pushes] using hd
+
+/-- Once an endpoint has released a flow, writes on its stream fail: the object is closed for
+    writing, so `poll_write` answers `BrokenPipe` and emits nothing. -/
+theorem released_write_fails {p : PS} (h : Inv p) {x : Nat} (hx : x ∈ p.linked) (hrel : lookup p.a.flows x = none)
+    (hd i : Nat) (o : Obj) (d : Bytes) (hh : p.a.handleObj hd = some (i, o)) (hf : o.fid = x) :
+    (appWrite p.a hd d).2 = .brokenPipe ∧ (appWrite p.a hd d).1.outq = p.a.outq := by
+  obtain ⟨i', _, oA, _, hoA, _, _, _, u1, _, hfin, _, _⟩ := released_dir h hx hrel
+  have ho := handleObj_obj hh
+  have hi : i = i' := u1 i o ho hf
+  subst hi
+  rw [hoA] at ho; cases ho
+  rcases appWrite_local p.a hd i o d hh h.runA.outClosed with ⟨_, hres, u⟩ | ⟨hf', _⟩ | ⟨hf', _⟩ | ⟨hf', _⟩
+  · exact ⟨hres, by rw [u.outq]; simp⟩
+  all_goals (rw [hfin] at hf'; cases hf')
 
 end Penguin.Pair
